@@ -285,7 +285,7 @@ fn cmd_run(args: &[String]) -> i32 {
             let mut fin: Option<Scenario> = None;
             if reproduces(&sc) {
                 // minimise in-process first (fast); fall back to fresh-process evaluation of every candidate
-                let mut sh = shrink::Shrinker { corpus: &mut corpus, armed, opts: ExecOpts { log_events: false, cold, exe: exe.clone() }, oracle: v.oracle.clone(), budget: 2000, deadline: Instant::now() + Duration::from_secs(20), runs: 0, child_exe: None };
+                let mut sh = shrink::Shrinker { corpus: &mut corpus, armed, opts: ExecOpts { log_events: false, cold, exe: exe.clone() }, oracle: v.oracle.clone(), budget: 2000, deadline: Instant::now() + Duration::from_secs(12), runs: 0, child_exe: None };
                 let small = sh.shrink(&sc);
                 if reproduces(&small) {
                     fin = Some(small);
